@@ -527,20 +527,26 @@ Section Reals.
   Qed.
 
   Definition scalar_X (p : Z) (q : positive) (eps : R) (A : mat R) : mat R :=
-    fun _ _ => Rpower (A 0%nat 0%nat + eps) (expo Op p q).
+    fun _ _ => Rpower (A 0%nat 0%nat - Rmin (A 0%nat 0%nat) 0 + eps) (expo Op p q).
 
   Lemma scalar_root_ok A p q eps : (p <> 0)%Z -> scalar_root Op A p q eps = Ok (plain Op (scalar_X p q eps A)).
-  Proof. intros Hp. unfold scalar_root. destruct (Z.eqb_spec p 0); [contradiction|reflexivity]. Qed.
+  Proof.
+    intros Hp. unfold scalar_root. destruct (Z.eqb_spec p 0); [contradiction|].
+    rewrite (fmin_R rnd). reflexivity.
+  Qed.
 
+  (* the 1x1 path applies the same shift as the eigen path: equal for EVERY real entry, negative included *)
   Theorem scalar_eq_eigen p q eps A L Q :
-    0 <= A 0%nat 0%nat -> eigh_contract 1 A L Q ->
+    eigh_contract 1 A L Q ->
     meq 1 (scalar_X p q eps A) (eigen_X Op 1 p q eps false L Q).
   Proof.
-    intros Hpos HC.
+    intros HC.
     assert (HD : mis_diag Op 1 A) by (intros i j Hi Hj Hne; lia).
-    rewrite <- (diagonal_eq_eigen 1 p q eps A L Q); [|lia|exact HD| |exact HC].
-    - intros i j Hi Hj. assert (i = 0%nat) by lia. assert (j = 0%nat) by lia. subst. reflexivity.
-    - intros i Hi. assert (i = 0%nat) by lia. subst. exact Hpos.
+    rewrite (eigen_X_unique 1 p q eps false A L Q _ _ Nat.lt_0_1 HC (diag_contract 1 A HD)).
+    rewrite eigen_X_spec. unfold MatrixProofs.spec. rewrite (mmul_id_l rnd), (mtrans_id rnd), (mmul_id_r rnd).
+    intros i j Hi Hj. assert (i = 0%nat) by lia. assert (j = 0%nat) by lia. subst.
+    unfold scalar_X, mdiag, eigen_d. cbn [Nat.eqb]. rewrite eigen_shifted_eq. unfold shiftf, mdiagonal.
+    f_equal.
   Qed.
 
   (* packaged: what matrix_inverse_root returns on the fast paths equals what its eigen path returns *)
@@ -551,7 +557,7 @@ Section Reals.
        exists Xd, matrix_inverse_root Op [n; n] A p q cfg eps true L Q = Ok (plain Op Xd)
                   /\ meq n Xd (eigen_X Op n p q eps false L Q))
     /\ (* numel = 1, any configuration *)
-    (n = 1%nat -> 0 <= A 0%nat 0%nat ->
+    (n = 1%nat ->
        exists Xs, matrix_inverse_root Op [1%nat; 1%nat] A p q cfg eps false L Q = Ok (plain Op Xs)
                   /\ meq 1 Xs (eigen_X Op 1 p q eps false L Q)).
   Proof.
@@ -559,7 +565,7 @@ Section Reals.
     - intros Hn HD Hpos. exists (diag_X p q eps A). split.
       + rewrite square_dispatch by exact Hn. unfold dispatch. apply diagonal_root_ok; exact Hp.
       + apply diagonal_eq_eigen; try assumption. lia.
-    - intros -> Hpos. exists (scalar_X p q eps A). split.
+    - intros ->. exists (scalar_X p q eps A). split.
       + unfold matrix_inverse_root. cbn [numel fold_right Nat.mul]. apply scalar_root_ok. lia.
       + apply scalar_eq_eigen; assumption.
   Qed.
